@@ -673,6 +673,53 @@ def run(ctx):
         exp = [a for a in np.ndindex(*nums) if all(data[a + (i,)] >= max(data[a[:i] + (k,) + a[i + 1:] + (i,)] for k in range(nums[i])) - 1e-8 for i in range(N))]
         if out != [tuple(int(v) for v in a) for a in exp]:
             hfail("pure_nash_brute", "pure_nash_brute is wrong on a game with a single player / single action", {"payoff_profile_array": data, "tol": None}, out, exp)
+    # ---------------------------------------------------------------- result aliasing across calls (oracle only)
+    def keep_all(nes):
+        return [(arr, arr.copy()) for ne in nes for arr in ne]
+    for (m, n) in [(2, 2), (3, 3), (2, 3), (1, 2)] + ([(4, 4), (3, 5)] if thorough else []):
+        games = []
+        for _ in range(3):                    # several games of the SAME shape (buffers are usually cached per shape)
+            A = np.array([[rng.randrange(-3, 4) for _ in range(n)] for _ in range(m)], dtype=float)
+            B = np.array([[rng.randrange(-3, 4) for _ in range(n)] for _ in range(m)], dtype=float)
+            games.append((A, B, NormalFormGame((Player(A.copy()), Player(B.T.copy())))))
+        solvers = [("lemke_howson", lambda G: [lemke_howson(G, init_pivot=ip) for ip in range(m + n)]), ("support_enumeration", support_enumeration)]
+        if m >= 2 and n >= 2:
+            solvers.append(("vertex_enumeration", vertex_enumeration))
+        for name, f in solvers:
+            ctx.count("alias:solver:" + name)
+            info = {"solver": name, "A": games[0][0], "B": games[0][1]}
+            try:
+                res0 = f(games[0][2])
+                kept = keep_all(res0)
+                ref0 = ne_list(res0)
+                arrs = [a for a, _ in kept]
+                stored = [pa for (_, _, G) in games for pa in G.payoff_arrays]
+                for x in range(len(arrs)):
+                    for st in stored:
+                        if arrs[x].size and np.shares_memory(arrs[x], st):
+                            hfail("result_aliases_internal_state", "a profile returned by %s shares memory with a payoff array of the game" % name, info)
+                    for y in range(x + 1, len(arrs)):
+                        if arrs[x].size and arrs[y].size and np.shares_memory(arrs[x], arrs[y]):
+                            hfail("result_aliases_internal_state", "two vectors returned by %s share memory" % name, info)
+                later = [f(G) for (_, _, G) in games[1:]] + [f(games[0][2])]        # later calls, same shapes, other inputs
+                if any(not np.array_equal(a, c) for a, c in kept):
+                    hfail("result_overwritten_by_later_call", "profiles returned by %s changed after later calls on games of the same shape" % name, info, ne_list(res0), ref0)
+                for a, _ in kept:
+                    if a.flags.writeable:
+                        a[...] = -31337.0
+                ctx.count("alias:scribbled", len(kept))
+                again = ne_list(f(games[0][2]))
+                fresh = ne_list(f(NormalFormGame((Player(games[0][0].copy()), Player(games[0][1].T.copy())))))
+                if again != ref0 or fresh != ref0 or ne_list(later[-1]) != ref0:
+                    hfail("result_aliases_internal_state", "%s returns something else after the arrays of an earlier result were overwritten" % name, info, [again, fresh], ref0)
+                for (A_, B_, G) in games:
+                    if not (np.array_equal(G.payoff_arrays[0], A_) and np.array_equal(G.payoff_arrays[1], B_.T)):
+                        hfail("mutation", "%s (or overwriting its results) changed the payoffs stored in a game" % name, info)
+            except Exception as e:
+                if "Qhull" not in type(e).__name__:
+                    hfail("raises", "the aliasing probe of %s hit an exception: %r" % (name, e), info, repr(e))
+            ctx.case(("alias", name, m, n, repr(games[0][0].tolist()), repr(games[0][1].tolist())), nontrivial=(m >= 2 and n >= 2))
+
     # ---- class 6: documented errors
     g22 = NormalFormGame((Player(np.eye(2)), Player(np.eye(2))))
     g3 = NormalFormGame(np.zeros((2, 2, 2, 3)))
